@@ -1,6 +1,6 @@
 import Harper.Basic.Proto
 import Harper.Model.Spell
-namespace Harper.Driver
+namespace Harper.Driver.Spell
 open Harper Harper.Proto Harper.Spell
 
 namespace SpellDrv
@@ -41,4 +41,4 @@ def handleAcc (args : List String) : String :=
     | _, _, _ => "bad-op"
   | _ => "bad-op"
 
-end Harper.Driver
+end Harper.Driver.Spell
